@@ -561,7 +561,13 @@ fn gen_payload(r: &mut Rng) -> Vec<u8> {
         8 => 6,
         9..=16 => r.range(2, 24),
         17 | 18 => r.range(64, 300),
-        _ => r.range(8190, 8200),
+        _ => {
+            if r.chance(1, 3) {
+                r.range(8190, 8200)
+            } else {
+                r.range(300, 700)
+            }
+        }
     } as usize;
     if n >= 64 {
         // runs / ramps keep the Gallina literal short
@@ -601,7 +607,13 @@ fn random_cuts(r: &mut Rng, len: usize) -> Vec<usize> {
         1 | 2 => 1,
         3 => 2,
         4 => r.range(3, 6),
-        _ => len as u64 - 1, // byte by byte
+        _ => {
+            if len <= 120 {
+                len as u64 - 1 // byte by byte
+            } else {
+                r.range(7, 12)
+            }
+        }
     } as usize;
     if n >= len - 1 {
         return (1..len).collect();
@@ -1014,7 +1026,7 @@ fn main() {
     }
 
     // ---------------- random valid streams --------------------------------------------------
-    let (n_valid, n_mut, n_raw) = if a.thorough { (9000, 16000, 6000) } else { (500, 900, 300) };
+    let (n_valid, n_mut, n_raw) = if a.thorough { (7000, 13000, 5000) } else { (500, 900, 300) };
     for _ in 0..n_valid * a.scale {
         let enc = if r.chance(1, 2) { Some(*r.pick(&ENCS)) } else { None };
         let (msgs, wire) = gen_valid(&mut r, enc, 6);
